@@ -5,6 +5,7 @@ import (
 	"bytes"
 	"encoding/binary"
 	"fmt"
+	"github.com/scigolib/hdf5/verif/hist"
 	"math"
 	"os"
 	"path/filepath"
@@ -231,6 +232,7 @@ func run(c Case) vt.Verdict {
 		if err := handles[i].Write(v); err != nil {
 			return vt.Bad("Write of %d vlen %s elements to %s: %v", len(want), c.Type, p, err)
 		}
+		hist.Scribble(v) // the caller refills its buffers for the next dataset; "want" holds separate copies
 		all = append(all, dsInfo{p, want})
 	}
 	var afterWant []float64
@@ -339,6 +341,7 @@ func run(c Case) vt.Verdict {
 			vt.Recorder(prop).KnownHit("KF-C11-05", "vlen string datatype not recognised as string by the library's reader (class bits vs properties)", nil)
 		}
 		cache := map[uint64]*core.GlobalHeapCollection{}
+		var kept [][]byte
 		for i := 0; i < n; i++ {
 			el := o.Raw[i*16 : (i+1)*16]
 			// independent resolution
@@ -368,6 +371,19 @@ func run(c Case) vt.Verdict {
 			}
 			if !bytes.Equal(obj.Data, di.want[i]) {
 				return vt.Bad("%s element %d: the library's heap reader returns %d bytes, written %d (first diff %d)", di.path, i, len(obj.Data), len(di.want[i]), firstDiff(obj.Data, di.want[i]))
+			}
+			kept = append(kept, obj.Data)
+		}
+		// a caller collects the elements first and uses them afterwards: reading further collections (also uncached, a second
+		// time) must leave the bytes already handed out alone
+		for a := range cache {
+			if _, err := core.ReadGlobalHeapCollection(hf.Reader(), a, 8); err != nil {
+				return vt.Bad("%s: second ReadGlobalHeapCollection(%#x): %v", di.path, a, err)
+			}
+		}
+		for i := range kept {
+			if !bytes.Equal(kept[i], di.want[i]) {
+				return vt.Bad("%s element %d: the bytes handed out by the library's heap reader changed after other collections were read (first diff %d)", di.path, i, firstDiff(kept[i], di.want[i]))
 			}
 		}
 		// ReadStrings: the values or an error
